@@ -22,6 +22,8 @@ def mkch(fading, Tc, k=None, snr=None, power=None):
     kw = {}
     if fading == "rician":
         kw["k_factor"] = k
+    if fading == "lognormal":
+        kw["shadow_sigma_db"] = 4.0
     if snr is not None:
         kw["snr_db"] = snr
     else:
@@ -105,10 +107,15 @@ def run_generated(item, tl, mutate=None):
     paths = sym_paths(run, bounds(names, -20, 20), tl, max_paths=4)
     ctx, R = paths[0]
     draws = [S.topoly(g) for g in R["draws"]]
-    need = 2 * B * nb + 2 * B * L
+    need = 2 * B * nb + 2 * B * L + (B * nb if fading == "lognormal" else 0)     # log-normal: one more draw per (item, block) for the shadowing
     if len(draws) != need:
         rec("block-constant independent gains", "violated", what=f"{len(draws)} Gaussian draws, expected {need} (one complex coefficient per (batch item, block) + one complex noise sample per symbol)",
             witness={"draws": len(draws)}, replay={"reproduced": True})
+        return obs
+    if fading == "lognormal":
+        # exp() of a draw has no algebraic encoding: only the number of independent draws per (batch item, block) is claimed here
+        rec("block-constant independent gains", "holds", sample=dict(query="number of Gaussian draws consumed = 3 per (batch item, block) + 2 per symbol", draws=len(draws)),
+            note="log-normal fading: draw-count clause only (value law outside the claim)")
         return obs
     g1, g2 = draws[:B * nb], draws[B * nb:2 * B * nb]
     zr, zi = draws[2 * B * nb:2 * B * nb + B * L], draws[2 * B * nb + B * L:]
@@ -239,6 +246,10 @@ def all_items():
                 it = dict(type="generated", fading=fading, k=k, B=B, L=L, Tc=Tc, snr=snr)
                 it["config"] = f"{fading}{'' if k is None else f'(K={k})'} B={B} L={L} Tc={Tc} {'snr=' + str(snr) if snr is not None else 'power=0.25'}"
                 items.append(it)
+    for B in (1, 2):
+        it = dict(type="generated", fading="lognormal", k=None, B=B, L=L, Tc=2, snr=None)
+        it["config"] = f"lognormal(sigma=4dB) B={B} L={L} Tc=2 power=0.25"
+        items.append(it)
     # inputs with more than two dimensions: the per-item sequence is the flattened (C, L/C) part, so coherence times
     # between the last dimension and the flattened length still split an item into several independent blocks
     C = 2
